@@ -206,7 +206,7 @@
         lemma_one_rows_mono(ops, t, is_min, cp, cn, vx_i12 as int);
         assert forall|k: int, env: Env| 0 <= k < vx_i12 + 1 && #[trigger] lz_ok(cn, env) implies (sem(#[trigger] ops[k], env) matches Some(v) && (if is_min { env[t] <= v } else { env[t] >= v })) by {
             if k == vx_i12 {
-                assert(lz_ok(cp, env) && c_holds(vx_a13, env));
+                assert(lz_ok(cp, env) && c_holds_w(vx_a13, env));
                 lemma_lz_ext_mono(c3, cp, env);
                 assert(op_rel(ops[k], res_[k], operand_requirement, c3));
             }
@@ -286,8 +286,8 @@
         assert forall|env: Env| #[trigger] lz_ok(cn, env) implies (sem(ops[k0], env) matches Some(v) && ({
             let slack = rmul_s(big_m(rb, eb, is_min, k0), 1real - env[sels[k0]->Variable_0@]);
             if is_min { env[t] <= v && env[t] >= v - slack } else { env[t] >= v && env[t] <= v + slack } })) by {
-            assert(lz_ok(cq, env) && c_holds(vx_a18, env));
-            assert(lz_ok(cp, env) && c_holds(vx_a17, env));
+            assert(lz_ok(cq, env) && c_holds_w(vx_a18, env));
+            assert(lz_ok(cp, env) && c_holds_w(vx_a17, env));
             lemma_lz_ext_mono(c3, cp, env);
             assert(op_rel(ops[k0], res_[k0], operand_requirement, c3)) by { reveal(ops_ok); }
             let r = vx_a18.rhs; let m = *r->BinOp_2; let sb = *m->BinOp_2;
@@ -300,8 +300,8 @@
         assert forall|env: Env| #[trigger] lz_ok(cn, env) implies (sem(ops[k0], env) matches Some(v) && ({
             let slack = rmul_s(big_m(rb, eb, is_min, k0), 1real - env[sels[k0]->Variable_0@]);
             if is_min { env[t] <= v && env[t] >= v - slack } else { env[t] >= v && env[t] <= v + slack } })) by {
-            assert(lz_ok(cq, env) && c_holds(vx_a20, env));
-            assert(lz_ok(cp, env) && c_holds(vx_a19, env));
+            assert(lz_ok(cq, env) && c_holds_w(vx_a20, env));
+            assert(lz_ok(cp, env) && c_holds_w(vx_a19, env));
             lemma_lz_ext_mono(c3, cp, env);
             assert(op_rel(ops[k0], res_[k0], operand_requirement, c3)) by { reveal(ops_ok); }
             let r = vx_a20.rhs; let m = *r->BinOp_2; let sb = *m->BinOp_2;
@@ -334,7 +334,7 @@
         lemma_mul_one();
         // the last row: the selectors sum to one
         assert forall|env: Env| #[trigger] lz_ok(cf, env) implies lz_ok(c5, env) && ssum(sels, env, n) == 1real by {
-            assert(lz_ok(c5, env) && c_holds(vx_a3, env));
+            assert(lz_ok(c5, env) && c_holds_w(vx_a3, env));
             assert forall|k: int| 0 <= k < n implies sem(#[trigger] sels[k], env) is Some by { reveal(sel_ok); }
             assert(sem(vx_a3.lhs, env) == Some(ssum(sels, env, n)));
         }
